@@ -35,6 +35,25 @@ type session struct {
 	// Mask: "" | "keep1" | "keep2" — a read mask on two-field messages (values are two-character tokens)
 	// keeping only the first resp. second field; the predicate still ranges over the full stored values
 	Mask string `json:"mask,omitempty"`
+	// Equiv: "" | "same" | "first" — resource.WithEquivalence on the collection, applied by Pull to the
+	// (masked) old/new of a change after include: equal tokens resp. equal first field (absent ~ absent only)
+	Equiv string `json:"equiv,omitempty"`
+	// UpdatesOnly: Pull(WithUpdatesOnly(true)) — no seed; the subscriber folds onto List taken at subscribe time
+	UpdatesOnly bool `json:"updates_only,omitempty"`
+}
+
+// equivTok is the configured equivalence on value tokens ("-" = absent); reflexive and transitive.
+func equivTok(kind, a, b string) bool {
+	switch kind {
+	case "same":
+		return a == b
+	case "first":
+		if a == "-" || b == "-" {
+			return a == b
+		}
+		return a[0] == b[0]
+	}
+	return a == b
 }
 
 func (s session) fenceAdd() string {
@@ -59,10 +78,20 @@ func projTok(mask, tok string) string {
 }
 
 func (s session) opSuffix() string {
-	if s.Mask == "" {
+	if s.Mask == "" && s.Equiv == "" && !s.UpdatesOnly {
 		return ""
 	}
-	return ":" + s.Mask
+	m, e, u := s.Mask, s.Equiv, "0"
+	if m == "" {
+		m = "none"
+	}
+	if e == "" {
+		e = "none"
+	}
+	if s.UpdatesOnly {
+		u = "1"
+	}
+	return ":" + m + ":" + e + ":" + u
 }
 
 func (s session) maskOpts() []resource.ReadOption {
@@ -145,7 +174,14 @@ func listWithInclude(c *resource.Collection, p pred, extra ...resource.ReadOptio
 
 // run executes the session on the real code.  Returns the seed burst observation first.
 func (s session) run() (obs []burstObs) {
-	c := resource.NewCollection()
+	var copts []resource.Option
+	if s.Equiv != "" {
+		kind := s.Equiv
+		copts = append(copts, resource.WithEquivalence(resource.ComparerFunc(func(x, y proto.Message) bool {
+			return equivTok(kind, tokOf(x), tokOf(y))
+		})))
+	}
+	c := resource.NewCollection(copts...)
 	for _, op := range s.Ops[:s.NBefore] {
 		_ = applyOp(c, op)
 	}
@@ -157,6 +193,9 @@ func (s session) run() (obs []burstObs) {
 	}
 	opts = append(opts, resource.WithBackpressure(s.BP))
 	opts = append(opts, s.maskOpts()...)
+	if s.UpdatesOnly {
+		opts = append(opts, resource.WithUpdatesOnly(true))
+	}
 	ch := c.Pull(ctx, opts...)
 
 	// gated consumer: reads only while a drain is requested, up to the fence event
@@ -315,6 +354,7 @@ func (sh shadow) filtered(p pred, mask string) string {
 type viewFold struct {
 	view  map[string]string
 	notWF string
+	equiv string // with an equivalence, suppressed changes leave the view only equivalent: old must be ~ current
 }
 
 func (vf *viewFold) apply(ev string) {
@@ -332,9 +372,9 @@ func (vf *viewFold) apply(ev string) {
 	case "ADD":
 		ok = !present && old == "-" && new != "-"
 	case "UPDATE", "REPLACE":
-		ok = present && old == cur && new != "-"
+		ok = present && equivTok(vf.equiv, cur, old) && new != "-"
 	case "REMOVE":
-		ok = present && old == cur && new == "-"
+		ok = present && equivTok(vf.equiv, cur, old) && new == "-"
 	}
 	if !ok && vf.notWF == "" {
 		vf.notWF = ev
@@ -362,6 +402,27 @@ func (vf *viewFold) String() string {
 	return strings.Join(parts, ",")
 }
 
+// viewsEquivalent: same ids and, id by id, values related by the configured equivalence (equality without one).
+func viewsEquivalent(equiv, a, b string) bool {
+	if a == b {
+		return true
+	}
+	if equiv == "" || a == "-" || b == "-" {
+		return false
+	}
+	pa, pb := strings.Split(a, ","), strings.Split(b, ",")
+	if len(pa) != len(pb) {
+		return false
+	}
+	for i := range pa {
+		ka, kb := strings.SplitN(pa[i], "=", 2), strings.SplitN(pb[i], "=", 2)
+		if ka[0] != kb[0] || !equivTok(equiv, ka[1], kb[1]) {
+			return false
+		}
+	}
+	return true
+}
+
 func bpName(b bool) string {
 	if b {
 		return "on"
@@ -376,7 +437,15 @@ func (s session) monitor(m *lib.Monitor, obs []burstObs) {
 		sh.apply(op)
 	}
 	pre := "C08/Pull/bp=" + bpName(s.BP) + "/"
-	vf := &viewFold{view: map[string]string{}}
+	vf := &viewFold{view: map[string]string{}, equiv: s.Equiv}
+	if s.UpdatesOnly {
+		// no seed: the subscriber folds onto the (masked) filtered collection it listed when subscribing
+		for id, v := range sh {
+			if s.Pred.in(id, v) {
+				vf.view[id] = projTok(s.Mask, v)
+			}
+		}
+	}
 	nontrivial := !s.Pred.Nil
 	for bi, b := range obs {
 		if b.Panicked != "" {
@@ -413,6 +482,12 @@ func (s session) monitor(m *lib.Monitor, obs []burstObs) {
 				ef[3], ef[4] = projTok(s.Mask, ef[3]), projTok(s.Mask, ef[4])
 				exp = strings.Join(ef, ",")
 			}
+			if exp != "drop" && s.Equiv != "" {
+				// the equivalence judges the masked old/new of what include forwards
+				if ef := splitComma(exp); equivTok(s.Equiv, ef[3], ef[4]) {
+					exp = "drop"
+				}
+			}
 			cell := fmt.Sprintf("%s/%s-%s/pAbsent=%s", kind, inout(oin), inout(nin), tf(!s.Pred.Nil && s.Pred.eval(id, "-")))
 			if id != fenceID {
 				m.Count("cell " + kind + "/" + inout(oin) + "-" + inout(nin))
@@ -446,7 +521,11 @@ func (s session) monitor(m *lib.Monitor, obs []burstObs) {
 			for _, op := range s.Ops[:s.NBefore] {
 				sh0.apply(op)
 			}
-			if want := sh0.filtered(s.Pred, s.Mask); sv != want {
+			want := sh0.filtered(s.Pred, s.Mask)
+			if s.UpdatesOnly {
+				want = "-" // WithUpdatesOnly: no seed at all
+			}
+			if sv != want {
 				m.Violate("C08/Pull/seed/not-filtered-list", "the seed is not the filtered list", s, want, sv)
 			}
 		}
@@ -487,13 +566,13 @@ func (s session) monitor(m *lib.Monitor, obs []burstObs) {
 			vf.notWF = ""
 		}
 		want := sh.filtered(s.Pred, s.Mask)
-		if got := vf.String(); got != want {
+		if got := vf.String(); !viewsEquivalent(s.Equiv, got, want) {
 			m.Violate(pre+"fold-differs-from-filtered-collection", "folding the delivered stream does not give the filtered collection", s, want, got)
 		}
 		if b.List != want {
 			m.Violate("C08/List/not-filtered-collection", "List(WithInclude) is not the filtered collection", s, want, b.List)
 		}
-		if got := vf.String(); got != b.List {
+		if got := vf.String(); !viewsEquivalent(s.Equiv, got, b.List) {
 			m.Violate(pre+"fold-differs-from-List", "folding the delivered stream does not give List(WithInclude)", s, b.List, got)
 		}
 		m.Eval(fmt.Sprintf("%s/%v/%d/%s", s.Pred.token(), s.BP, s.NBefore, strings.Join(b.Ops, " ")), nontrivial, nil)
@@ -560,6 +639,10 @@ func genSession(r *rand.Rand, bp bool, small bool) session {
 	if !small && r.Intn(3) == 0 {
 		ids = ids3
 	}
+	if !bp && r.Intn(4) == 0 {
+		// lossy with a single id: long same-id sequences (remove, add, remove …) inside one merge window
+		ids = ids[:1]
+	}
 	nb := r.Intn(4)
 	na := 1 + r.Intn(6)
 	if small {
@@ -578,6 +661,12 @@ func genSession(r *rand.Rand, bp bool, small bool) session {
 		p = pred{Nil: true}
 	}
 	s := session{Kind: "pull", Pred: p, BP: bp, NBefore: nb, Ops: genOps(r, ids, vals, nb+na), Mask: mask}
+	if r.Intn(4) == 0 {
+		s.Equiv = []string{"same", "first"}[r.Intn(2)]
+	}
+	if r.Intn(5) == 0 {
+		s.UpdatesOnly = true
+	}
 	if bp {
 		s.Bursts = append(s.Bursts, 0)
 		for i := 0; i < na; i++ {
@@ -711,7 +800,7 @@ func modelAnswerBP(ans string, obs []burstObs) string {
 
 func runPull(f lib.Flags, res *lib.Result, drv *lib.Driver) {
 	tieBP := res.Tie("pull-backpressure", "K1",
-		"random write histories (Add/Update/Update+CreateIfAbsent/Delete incl. failing writes) over 2-3 ids x 2 values on a real Collection, subscription after a random prefix, Pull(WithInclude p, WithBackpressure(true)) with p a random truth table over (id, {absent} + values); a third of the sessions use two-field messages (4 values) under a read mask that strips one of the fields, the truth table ranging over the full stored values (so it may depend on the stripped field, the kept one, or both) — model: include on the unmasked values, then the mask's projection on seeds, events and List; after each write a fence write, then the delivered events and List(WithInclude p) are compared with the model's `pull` answer; non-trivial = predicate not nil; distinct = (predicate, history)")
+		"random write histories (Add/Update/Update+CreateIfAbsent/Delete incl. failing writes) over 2-3 ids x 2 values on a real Collection, subscription after a random prefix, Pull(WithInclude p, WithBackpressure(true)) with p a random truth table over (id, {absent} + values); a third of the sessions use two-field messages (4 values) under a read mask that strips one of the fields, the truth table ranging over the full stored values (so it may depend on the stripped field, the kept one, or both) — model: include on the unmasked values, then the mask's projection on seeds, events and List; a quarter of the sessions configure an equivalence on the collection (equal values / equal first field, judged on the masked old/new after include) and a fifth subscribe with WithUpdatesOnly (no seed); after each write a fence write, then the delivered events and List(WithInclude p) are compared with the model's `pull` answer; non-trivial = predicate not nil; distinct = (predicate, history)")
 	tieLossy := res.Tie("pull-lossy", "K1",
 		"same histories with WithBackpressure(false): writes in bursts of 1-4 with nothing read meanwhile (the real mergeCollectionExcess merges), then drained to a fence; the delivered stream of each burst must be one of the streams the model produces over all recv/emit patterns (acceptor); model side = the delivered stream if accepted, else the model's set")
 	mon := res.Monitor("pull-fold", "on the same sessions, independent of the model: seed = filtered list; with backpressure the delivered stream is exactly the filtered edit script per write (in-in delivered as is, out-in ADD, in-out REMOVE, out-out nothing); every delivered event is well formed at the subscriber's view; after every burst fold(delivered) = filtered shadow map = List(WithInclude p); distinct = (predicate, burst)")
